@@ -96,6 +96,8 @@ func main() {
 		writeJSON(*out, CrashMode(*profile, *seed, *n, *tier, *driver, *keep))
 	case "snapshot":
 		writeJSON(*out, SnapshotMode(*profile, *seed, *n, *tier, *keep))
+	case "beginq":
+		writeJSON(*out, BeginKernels(*seed, *n, *driver, *keep))
 	case "campaign":
 		res := Campaign(*profile, *seed, *n, *tier, *driver, *keep, *par)
 		writeJSON(*out, res)
